@@ -312,7 +312,7 @@ def main(tier, seed, scale=1.0):
     hists += mm[:(16 if q else len(mm))]
     if q:
         r.shuffle(hists)
-        keep = [h for h in hists if len(h) <= 2] + [h for h in hists if len(h) == 3][:150]
+        keep = [h for h in hists if len(h) <= 2] + [h for h in hists if len(h) == 3][:260]
         hists = keep + mm[:16]
     nrand = 30 if q else 6000
     for _ in range(nrand):
